@@ -349,3 +349,5 @@ var errVpReload = errors.New("verif: scripted reload failure")
 func clientKey(ns, name string) types.NamespacedName { return types.NamespacedName{Namespace: ns, Name: name} }
 
 func upsertOf(obj client.Object) interface{} { return &events.UpsertEvent{Resource: obj} }
+
+func isNamespace(o client.Object) bool { _, ok := o.(*apiv1.Namespace); return ok }
